@@ -175,17 +175,22 @@ func tryReplay(prog *Program, v violation) (bool, string) {
 	smt := filepath.Join(dir, "q.smt2")
 	os.WriteFile(smt, []byte(txt), 0o644)
 	var out string
-	for _, c := range solvers {
-		if c.name == v.oblRef.Solver {
-			_, out = runOne(context.Background(), c, smt, 20, 0)
+	if v.oblRef.Status == "sat" {
+		for _, c := range solvers {
+			if c.name == v.oblRef.Solver {
+				_, out = runOne(context.Background(), c, smt, 20, 0)
+			}
 		}
 	}
 	idx := strings.Index(out, "((")
-	if !strings.HasPrefix(strings.TrimSpace(out), "sat") || idx < 0 {
-		return false, "replay: could not obtain model values:\n" + out + "\n"
-	}
 	vals := map[string]string{}
-	parsed := readSexprs(out[idx:])
+	var report strings.Builder
+	var parsed []any
+	if !strings.HasPrefix(strings.TrimSpace(out), "sat") || idx < 0 {
+		report.WriteString("no model available from the solver (" + v.oblRef.Status + "): the driver runs its default instance of the violated clause\n")
+	} else {
+		parsed = readSexprs(out[idx:])
+	}
 	if len(parsed) == 1 {
 		if lst, ok := parsed[0].([]any); ok {
 			for i, pair := range lst {
@@ -195,7 +200,6 @@ func tryReplay(prog *Program, v violation) (bool, string) {
 			}
 		}
 	}
-	var report strings.Builder
 	fmt.Fprintf(&report, "replay driver: %s\nmodel values: %v\n", filepath.Base(drv.File), vals)
 	body := tmplVar.ReplaceAllStringFunc(drv.Body, func(m string) string {
 		name := m[2 : len(m)-2]
